@@ -259,7 +259,9 @@ def h_implicit(case: int) -> bool:
         t = build(_C["atoms"], _SUB[ti])
         u = build(_C["atoms"], _USUB[ui])
         ok, detail, kind, nt = check_pair(_C, t, u)
-        rt.record({"hw": HWI, "t": list(_SUB[ti]), "u": list(_USUB[ui])}, ok, [HWI, ti, ui] if nt else None, detail=detail,
+        # the case carries the concrete trees: the z3-synthesised rows behind the atom indexes may differ between runs
+        rt.record({"hw": HWI, "t": list(_SUB[ti]), "u": list(_USUB[ui]), "t_tree": tree_to_json(t), "u_tree": tree_to_json(u)},
+                  ok, [HWI, ti, ui] if nt else None, detail=detail,
                   fingerprint="C17:%s:%s" % (HWS[HWI][0], kind))
     return ok
 
@@ -451,6 +453,10 @@ def plan(tier):
     return obs
 
 
+def _from_json(j):
+    return odict((row, _from_json(ch)) for row, ch in j)
+
+
 def replay(obligation, case):
     if "sequence" in case:
         ok, detail, kind, _ = check_sequence(*case["sequence"])
@@ -459,7 +465,10 @@ def replay(obligation, case):
         ok, detail, kind, _ = check_flow(*case["flow"])
         return {"ok": ok, "detail": detail, "fingerprint": "C17:gen-flow:%s" % kind}
     c = hw_ctx(case["hw"])
-    t = build(c["atoms"], case["t"])
-    u = build(c["atoms"], case["u"])
+    if "t_tree" in case:
+        t, u = _from_json(case["t_tree"]), _from_json(case["u_tree"])
+    else:
+        t = build(c["atoms"], case["t"])
+        u = build(c["atoms"], case["u"])
     ok, detail, kind, _ = check_pair(c, t, u)
     return {"ok": ok, "detail": detail, "fingerprint": "C17:%s:%s" % (HWS[case["hw"]][0], kind)}
